@@ -130,19 +130,19 @@ type FaultPlan struct {
 
 // Fault kinds for resolver invocations.
 const (
-	FaultError      = "error"                       // plain error
-	FaultGGQLError  = "ggql_error"                  // *ggql.Error with extensions
-	FaultErrorGroup = "error_group"                 // ggql.Errors with two members
-	FaultNthError   = "nth_error"                   // AnyResolver.Nth error
-	FaultBadLeaf    = "bad_leaf"                    // un-coercible leaf value
-	FaultGroupExt   = "error_group_with_extensions" // ggql.Errors whose members are *ggql.Error with extensions
-	FaultNestedGrp  = "nested_error_group"          // ggql.Errors{e, ggql.Errors{e, e}}: three entries
-	FaultShared     = "shared_ggql_error"           // every failing site of the plan returns the SAME *ggql.Error value (an application sentinel)
+	FaultError      = "error"                        // plain error
+	FaultGGQLError  = "ggql_error"                   // *ggql.Error with extensions
+	FaultErrorGroup = "error_group"                  // ggql.Errors with two members
+	FaultNthError   = "nth_error"                    // AnyResolver.Nth error
+	FaultBadLeaf    = "bad_leaf"                     // un-coercible leaf value
+	FaultGroupExt   = "error_group_with_extensions"  // ggql.Errors whose members are *ggql.Error with extensions
+	FaultNestedGrp  = "nested_error_group"           // ggql.Errors{e, ggql.Errors{e, e}}: three entries
+	FaultShared     = "shared_ggql_error"            // every failing site of the plan returns the SAME *ggql.Error value (an application sentinel)
 	FaultTwinGroup  = "error_group_with_equal_texts" // ggql.Errors of three members, two of them with the same text and different extensions
-	FaultWrapGroup  = "wrapped_error_group"         // fmt.Errorf("ctx: %w", group)-style wrapper around a ggql.Errors of two members
-	FaultWrapGGQL   = "wrapped_ggql_error"          // wrapper around a *ggql.Error with extensions
-	FaultPanic      = "panic"                       // the resolver panics (the caller of ggql recovers): histories only
-	FaultBadList    = "bad_list_elements"           // a [scalar] field returns []interface{}{ok, bad, ok, bad}: two coercion failures in one list
+	FaultWrapGroup  = "wrapped_error_group"          // fmt.Errorf("ctx: %w", group)-style wrapper around a ggql.Errors of two members
+	FaultWrapGGQL   = "wrapped_ggql_error"           // wrapper around a *ggql.Error with extensions
+	FaultPanic      = "panic"                        // the resolver panics (the caller of ggql recovers): histories only
+	FaultBadList    = "bad_list_elements"            // a [scalar] field returns []interface{}{ok, bad, ok, bad}: two coercion failures in one list
 )
 
 // IsScalarListField tells whether a zoo field is a list of bare scalars.
